@@ -77,6 +77,7 @@ CLASSES = [
     ('UContainer', uc.UContainer, 'plain'),
     ('UReversible', uc.UReversible, 'iterable'),
     ('UGenList', uc.UGenList, 'seq'),
+    ('UGenList2', uc.UGenList2, 'seq'),
     ('UGenPlain', uc.UGenPlain, 'plain'),
     ('EColor', uc.EColor, 'enum'),
     ('ENum', uc.ENum, 'intenum'),
@@ -473,7 +474,7 @@ class Universe:
                 try:
                     ok = isinstance(self._samples[n], C)
                 except Exception as e:
-                    raise Unsupported(f'isinstance(<{n}>, {C!r}) raised {type(e).__name__}: {e}')
+                    raise IsinstanceRaises(f'isinstance(<{n}>, {C!r}) raised {type(e).__name__}: {str(e)[:300]}')
                 if ok:
                     r.append(n)
             self._inst_cache[key] = (r, C)   # keep C alive so id() stays unique
@@ -899,3 +900,8 @@ class Universe:
 
 class Unsupported(Exception):
     """The construct lies outside the translator's / universe's vocabulary."""
+
+
+class IsinstanceRaises(Unsupported):
+    """The real isinstance() against a class-like object of the generated scope raises (e.g. a
+    forward-reference proxy that cannot be resolved): the generated code raises there too."""
